@@ -110,3 +110,12 @@ def clip_copy(x):
     out = x.copy()
     out[out < 0] = 0
     return out
+
+
+def positions_unsorted(all_labels, labels):
+    return np.searchsorted(all_labels, labels)
+
+
+def positions_sorted(all_labels, labels):
+    ref = np.unique(all_labels)
+    return np.searchsorted(ref, labels)
